@@ -139,6 +139,7 @@ def compare_case(q, a, m, stats):
 
 
 PWNAMES = set()
+PWUNTITLED = set()
 
 
 def run_corr_shard(args):
@@ -203,10 +204,218 @@ def correspondence(ck, exe, scratch, pool):
     return stats, ncases
 
 
+# --------------------------------------------------------------------------
+# direct oracle
+# --------------------------------------------------------------------------
+
+def type_key(t):
+    """short, stable key of a format name: 'DIGI Booster' -> 'digi', 'Fuchs Tracker' -> 'fuchs'"""
+    w = re.sub(r"[^a-z0-9 ]", "", t.decode("latin-1").lower()).split()
+    return w[0] if w else "none"
+
+
+def title_signature(ftype, uninit=False):
+    if ftype in PWNAMES:
+        if uninit or ftype in PWUNTITLED:
+            return "title:prowizard:uninit"
+        return "title:prowizard:" + type_key(ftype)
+    return "title:%s%s" % (type_key(ftype), ":uninit" if uninit else "")
+
+
+def run_oracle_shard(args):
+    exe, seed, nmut, maxsize, scratch, bystander, files = args
+    os.makedirs(scratch, exist_ok=True)
+    rc, out, err = vlib.run_exe(exe, ["run", str(seed), str(nmut), str(maxsize), scratch, bystander] + files,
+                                timeout=3000, env={"MSAN_OPTIONS": "halt_on_error=1:exit_code=86"})
+    return rc, out.decode("latin-1"), err
+
+
+def parse_oracle(out, err):
+    """-> list of per-file dicts {file, R:[..], T:[..], V:[..], P:[..], X:(what,status,last B), stderr}"""
+    errs = {}
+    cur = None
+    for block in re.split(r"^@@F ", err, flags=re.M)[1:]:
+        name, _, rest = block.partition("\n")
+        errs[name] = rest
+    files, f, lastb = [], None, None
+    for line in out.splitlines():
+        tag = line[:2]
+        if tag == "F ":
+            f = {"file": line[2:], "R": [], "T": [], "V": [], "P": [], "X": None}
+            lastb = None
+        elif f is None:
+            continue
+        elif tag == "B ":
+            lastb = line[2:]
+        elif tag == "R ":
+            f["R"].append(line[2:].split(" "))
+        elif tag == "T ":
+            f["T"].append(line[2:].split(" "))
+        elif tag == "V ":
+            f["V"].append(line[2:])
+        elif tag == "P ":
+            f["P"].append(line[2:])
+        elif tag == "X ":
+            f["X"] = (line[2:], lastb)
+        elif tag == "E ":
+            f["stderr"] = errs.get(f["file"], "")
+            files.append(f)
+            f = None
+    return files
+
+
+def replay_obj(exe_name, f, variant, pair=None):
+    return {"file": f, "variant": variant, "pair": pair,
+            "how": "python3 tools/check.py C11 --replay <this file>  (runs: %s replay <scratch> <bystander> <file> <variant>)" % exe_name}
+
+
+def eval_titles(ck, items):
+    """items: list of (thex, lhex) -> list of bool via the Lean function titleMatch (driver `tm`)."""
+    uniq = sorted(set(items))
+    if not uniq:
+        return {}
+    outl = vlib.run_driver("drv_c11", "".join("tm %s %s\n" % (t or "-", l or "-") for t, l in uniq))
+    return {k: o.split(" ")[1] == "1" for k, o in zip(uniq, outl)}
+
+
+def judge_files(ck, files, exe_name, stats, msan=False):
+    titles = []
+    for f in files:
+        for t in f["T"]:
+            titles.append((t[2], t[3]))
+    verdict = eval_titles(ck, titles) if ck.lean_ok else {}
+    for f in files:
+        fname = f["file"]
+        short = os.path.basename(fname)
+        for r in f["R"]:
+            variant, pair, trc, lrc, cont = r[0], r[1], r[2], r[3], r[4]
+            if not msan:
+                stats["pairs"] += 1
+                stats["by_pair"][pair] = stats["by_pair"].get(pair, 0) + 1
+                k = "test=%s,load=%s" % (trc, lrc)
+                stats["rc_table"][k] = stats["rc_table"].get(k, 0) + 1
+                if cont == "1":
+                    stats["container_variants"] += 1
+                if variant != "o":
+                    stats["mutated_pairs"] += 1
+                if trc == "0":
+                    ft = hexb(r[5]).decode("latin-1")
+                    stats["formats"][ft] = stats["formats"].get(ft, 0) + 1
+                ck.count(vlib.hash_str(fname + variant + pair), nontrivial=(variant != "o" or trc == "0"))
+        for v in f["V"]:
+            w = v.split(" ")
+            kind, variant, pair = w[0], w[1], w[2]
+            rp = replay_obj(exe_name, fname, variant, pair)
+            if kind == "rc":
+                ft = hexb(w[5]) if w[5] != "-" else b""
+                sig = "agree:%s:%s:%s" % (pair, type_key(ft) if ft else "none", w[3] + "," + w[4])
+                ck.violation(sig, rp, "%s [%s] %s pair: %s %s (type %s)" % (short, variant, pair, w[3], w[4], ft.decode("latin-1")))
+            elif kind == "strings":
+                if w[4] == "not-empty":
+                    sig = "strings:not-empty:%s:%s" % (pair, w[3])
+                    ck.violation(sig, rp, "%s [%s] %s test failed (%s) but name/type were not emptied (%s)" % (short, variant, pair, w[3], " ".join(w[5:])))
+                else:
+                    ft = cstr(hexb(w[5]))
+                    sig = "strings:unterminated:%s" % ("prowizard" if ft in PWNAMES else type_key(ft))
+                    ck.violation(sig, rp, "%s [%s] %s test succeeded but name/type is not NUL-terminated within 64 bytes" % (short, variant, pair))
+            elif kind == "uninit":
+                ft = hexb(w[5])
+                stats["uninit_titles"] += 1
+                ck.violation(title_signature(ft, uninit=True), rp,
+                             "%s [%s] %s test title/type holds uninitialised bytes (%s %s), type '%s' (MemorySanitizer)" % (
+                                 short, variant, pair, w[3], w[4], ft.decode("latin-1")))
+            elif kind == "context":
+                ck.violation("side-effect:context", rp, "%s [%s] %s: %s" % (short, variant, pair, " ".join(w[3:])))
+            elif kind == "file":
+                ck.violation("side-effect:file", rp, "%s [%s]: %s" % (short, variant, " ".join(w[3:])))
+        if msan:
+            if f["X"] and "exit 86" in f["X"][0]:
+                b = (f["X"][1] or "? ? ?").split(" ")
+                sig = vlib.sanitizer_signature(f.get("stderr", ""))
+                ck.violation("uninit:%s:%s" % (b[2], sig), replay_obj(exe_name, fname, b[0], b[1]),
+                             "%s [%s] %s %s: MemorySanitizer: %s" % (short, b[0], b[1], b[2], sig))
+            continue
+        for t in f["T"]:
+            variant, pair, th, lh, ft = t[0], t[1], t[2], t[3], hexb(t[4])
+            stats["title_pairs"] += 1
+            if hexb(th) or hexb(lh):
+                stats["title_pairs_nonempty"] += 1
+            if hexb(th) != hexb(lh):
+                stats["title_pairs_differ_bytes"] += 1
+            if verdict.get((th, lh), True):
+                continue
+            ck.violation(title_signature(ft), replay_obj(exe_name, fname, variant, pair),
+                         "%s [%s] %s: test title %r does not match loaded title %r (type '%s')" % (
+                             short, variant, pair, hexb(th), hexb(lh), ft.decode("latin-1")))
+        for pl in f["P"]:
+            w = pl.split(" ")
+            stats["premise_failures"] += 1
+            lname = hexb(w[2]).decode("latin-1") if w[0] != "walk" else "-"
+            ck.unproved("premise of C11_agree on the real loaders (%s, loader '%s')" % (w[0], lname),
+                        "%s [%s]: %s" % (fname, w[1], " ".join(w[3:])))
+        if f["X"]:
+            what, lastb = f["X"]
+            b = (lastb or "? ? ?").split(" ")
+            if what.startswith("timeout"):
+                stats["timeouts"] += 1
+                continue
+            sig = vlib.sanitizer_signature(f.get("stderr", ""))
+            ck.violation("crash:%s:%s:%s" % (b[1], b[2], sig), replay_obj(exe_name, fname, b[0], b[1]),
+                         "%s [%s] %s %s crashed (%s): %s" % (short, b[0], b[1], b[2], what, sig))
+            stats["crashes"] += 1
+
+
+def oracle(ck, scratch):
+    quick = ck.tier == "quick"
+    bystander = os.path.join(vlib.REPO, "test", "test.xm")
+    files = vlib.corpus_files()
+    if quick:
+        small = [f for f in files if os.path.getsize(f) < 300000]
+        ck.rng.shuffle(small)
+        files = sorted(small[:150])
+        nmut, maxsize = 5, 150000
+    else:
+        nmut, maxsize = 24, 400000
+    stats = {"pairs": 0, "mutated_pairs": 0, "by_pair": {}, "rc_table": {}, "formats": {}, "container_variants": 0,
+             "title_pairs": 0, "title_pairs_nonempty": 0, "title_pairs_differ_bytes": 0, "premise_failures": 0,
+             "crashes": 0, "timeouts": 0, "uninit_titles": 0}
+    exe = vlib.build_harness("c11_agree", ["c11_agree.c"])
+    # large files first, round-robin over shards
+    order = sorted(files, key=lambda f: -os.path.getsize(f))
+    nsh = vlib.NCPU
+    shards = [(exe, ck.seed, nmut, maxsize, os.path.join(scratch, "a%d" % i), bystander, order[i::nsh]) for i in range(nsh)]
+    shards = [s for s in shards if s[6]]
+    for (rc, out, err), sh in zip(vlib.pmap(run_oracle_shard, shards), shards):
+        if rc != 0:
+            raise vlib.InfraError("c11_agree failed (rc=%d): %s" % (rc, err[-2000:]))
+        judge_files(ck, parse_oracle(out, err), "c11_agree", stats)
+    ck.note("oracle_files", len(files))
+    # MemorySanitizer pass: initialisedness of the reported strings
+    try:
+        exem = vlib.build_harness("c11_agree", ["c11_agree.c"], variant="msan")
+    except vlib.InfraError as e:
+        ck.note("msan", "unavailable: " + str(e)[:200])
+        exem = None
+    if exem:
+        mfiles = [f for f in order if os.path.getsize(f) < (300000 if quick else 2000000)]
+        shards = [(exem, ck.seed, 1 if quick else 3, maxsize, os.path.join(scratch, "m%d" % i), bystander, mfiles[i::nsh]) for i in range(nsh)]
+        shards = [s for s in shards if s[6]]
+        for (rc, out, err), sh in zip(vlib.pmap(run_oracle_shard, shards), shards):
+            if rc != 0:
+                raise vlib.InfraError("c11_agree (msan) failed (rc=%d): %s" % (rc, err[-2000:]))
+            judge_files(ck, parse_oracle(out, err), "c11_agree(msan)", stats, msan=True)
+        ck.note("msan_files", len(mfiles))
+    fm = stats.pop("formats")
+    stats["formats_recognised"] = len(fm)
+    for k, v in stats.items():
+        ck.note("oracle_" + k, v)
+
+
 def run(ck):
-    global PWNAMES
+    global PWNAMES, PWUNTITLED
     g = ck.gen(gen_c11.generate)
     PWNAMES = {n.encode() for n in g["pwnames"]}
+    PWUNTITLED = {n.encode() for n in g["pw_untitled"]}
     ck.note("generated", {k: g[k] for k in ("changed", "n_loaders", "n_pw", "prepare_returns", "pw_title_init")})
     ck.proofs(["XmpProps.C11"], required=REQUIRED, drivers=["drv_c11"])
     exe = vlib.build_harness("c11_strings", ["c11_strings.c", "c11_table.c"])
@@ -220,6 +429,7 @@ def run(ck):
         for k, v in sorted(stats.items()):
             ck.note(k, v)
         ck.note("correspondence_cases", ncases)
+        oracle(ck, scratch)
     finally:
         import shutil
         shutil.rmtree(scratch, ignore_errors=True)
